@@ -359,7 +359,7 @@ def primary_replay(ctx: Ctx, behs, rng: random.Random) -> dict:
     for g in groups.values():
         for lst in g.values():
             rng.shuffle(lst)
-    n_scen = 30 if ctx.quick else 600
+    n_scen = 30 if ctx.quick else 450
     cat_cursor: dict = {}
 
     def pick(key):
